@@ -936,3 +936,111 @@ B('pB5_not_reroute_else_result_bound_late', ['C08'], 'R08.a',
              "                    if not isinstance(exc, HTTPException):\n                        uncaught_params = dict(params, _route=route, _error=exc)\n"
              "                        ret = err_handler.uncaught_to_response(**uncaught_params)\n                    elif exc.code < 500:\n                        ret = exc\n"
              "                else:\n                    raise\n"))
+
+# ---------------------------------------------------------------------------------------------- round f
+# R06.g: a conversion failure is "no match" (match_path is called outside dispatch's handler)
+_MP = ("        try:\n            for conv_name, conv in self.converters.items():\n                ret[conv_name] = conv(groups[conv_name])\n"
+       "        except (KeyError, TypeError, ValueError):\n            return None\n        return ret\n")
+T('pBf_twin_match_path_two_handlers', ['C06', 'C08'],
+  (R, _MP, "        try:\n            for conv_name, conv in self.converters.items():\n                ret[conv_name] = conv(groups[conv_name])\n"
+           "        except KeyError:\n            return None\n        except (TypeError, ValueError):\n            return None\n        return ret\n"))
+T('pBf_twin_match_path_lookup_first', ['C06', 'C08'],
+  (R, _MP, "        try:\n            texts = [(conv_name, conv, groups[conv_name]) for conv_name, conv in self.converters.items()]\n"
+           "            for conv_name, conv, text in texts:\n                ret[conv_name] = conv(text)\n"
+           "        except (KeyError, TypeError, ValueError):\n            return None\n        return ret\n"))
+B('pBf_match_path_conversion_after_the_try', ['C06'], 'R06.g',
+  (R, _MP, "        try:\n            texts = [(conv_name, conv, groups[conv_name]) for conv_name, conv in self.converters.items()]\n"
+           "        except KeyError:\n            return None\n        for conv_name, conv, text in texts:\n            ret[conv_name] = conv(text)\n        return ret\n"))
+B('pBf_match_path_typeerror_escapes', ['C06'], 'R06.g', (R, _MP, _MP.replace('(KeyError, TypeError, ValueError)', '(KeyError, ValueError)')))
+B('pBf_match_path_failure_is_an_empty_match', ['C06'], 'R06.g', (R, _MP, _MP.replace('            return None\n        return ret', '            return {}\n        return ret')))
+B('pBf_match_path_handler_reraises_some', ['C06'], 'R06.g',
+  (R, _MP, _MP.replace("            return None\n        return ret", "            if self.unbound_route.methods:\n                raise\n            return None\n        return ret")))
+
+# R06.h: the class the generated request core hands back unrendered vs. the class dispatch accepts / HTTPException derives from
+_IMP_BR = "from werkzeug.wrappers import BaseResponse\n"
+_ENV = "    env = {'endpoint': endpoint, 'render': render, 'BaseResponse': BaseResponse}\n"
+_TEST = "    if isinstance(context, BaseResponse):\n"
+_SIG = "def _create_request_inner(endpoint, render, all_args,\n                          endpoint_args, render_args):\n"
+T('pBf_twin_core_result_class_parameter', ['C06'],
+  (C, _SIG, "def _create_request_inner(endpoint, render, all_args,\n                          endpoint_args, render_args, result_base=BaseResponse):\n"),
+  (C, _ENV, "    env = {'endpoint': endpoint, 'render': render, 'BaseResponse': result_base}\n"))
+T('pBf_twin_core_result_class_renamed_global', ['C06'],
+  (C, _TEST, "    if isinstance(context, _finished):\n"), (C, _ENV, "    env = {'endpoint': endpoint, 'render': render, '_finished': BaseResponse}\n"))
+T('pBf_twin_core_result_class_tuple', ['C06'], (C, _TEST, "    if isinstance(context, (BaseResponse,)):\n"))
+B('pBf_core_result_class_is_the_mixin_class', ['C06'], 'R06.h',
+  (C, _IMP_BR, "from werkzeug.wrappers import BaseResponse, Response\n"), (C, _ENV, "    env = {'endpoint': endpoint, 'render': render, 'BaseResponse': Response}\n"))
+B('pBf_core_result_class_parameter_default', ['C06'], 'R06.h',
+  (C, _IMP_BR, "from werkzeug.wrappers import BaseResponse, Response\n"),
+  (C, _SIG, "def _create_request_inner(endpoint, render, all_args,\n                          endpoint_args, render_args, result_base=Response):\n"),
+  (C, _ENV, "    env = {'endpoint': endpoint, 'render': render, 'BaseResponse': result_base}\n"))
+B('pBf_core_result_class_is_the_error_class', ['C06'], 'R06.h',
+  (C, _IMP_BR, "from werkzeug.wrappers import BaseResponse\nfrom ..errors import HTTPException\n"),
+  (C, _ENV, "    env = {'endpoint': endpoint, 'render': render, 'BaseResponse': HTTPException}\n"))
+B('pBf_dispatch_accepts_only_the_mixin_class', ['C06'], 'R06.h',
+  (A, "                if not isinstance(ret, BaseResponse):\n", "                if not isinstance(ret, Response):\n"))
+
+# R07.c: what add() enters under inherit_slashes lies below the caller's keywords
+_ADDKW_IS = "        kwargs.setdefault('inherit_slashes', getattr(rf, 'inherit_slashes', True))\n"
+T('pBf_twin_add_inherit_slashes_if_absent', ['C07'],
+  (A, _ADDKW_IS, "        if 'inherit_slashes' not in kwargs:\n            kwargs['inherit_slashes'] = getattr(rf, 'inherit_slashes', True)\n"))
+B('pBf_add_inherit_slashes_falsy_is_unset', ['C07'], 'R07.c',
+  (A, _ADDKW_IS, "        if not kwargs.get('inherit_slashes'):\n            kwargs['inherit_slashes'] = getattr(rf, 'inherit_slashes', True)\n"))
+B('pBf_add_inherit_slashes_forced', ['C07'], 'R07.c', (A, _ADDKW_IS, "        kwargs['inherit_slashes'] = getattr(rf, 'inherit_slashes', True)\n"))
+B('pBf_add_inherit_slashes_factory_over_caller', ['C07'], 'R07.c',
+  (A, _ADDKW_IS, "        kwargs = dict(kwargs, inherit_slashes=getattr(rf, 'inherit_slashes', kwargs.get('inherit_slashes', True)))\n"))
+B('pBf_add_inherit_slashes_default_off', ['C07'], 'R07.c', (A, _ADDKW_IS, "        kwargs.setdefault('inherit_slashes', getattr(rf, 'inherit_slashes', False))\n"))
+
+# R08.j: stores on the request object before dispatch is entered
+_RID = ("        try:\n            # some request objects might not be amenable to assignment\n            request.request_id = next(_REQ_ID_ITER)\n"
+        "        except Exception:\n            pass\n        else:\n            request.request_guid = int2hexguid(request.request_id)\n")
+T('pBf_twin_request_ids_in_one_try', ['C08'],
+  (A, _RID, "        try:\n            request.request_id = next(_REQ_ID_ITER)\n            request.request_guid = int2hexguid(request.request_id)\n"
+            "        except Exception:\n            pass\n"))
+T('pBf_twin_request_guid_in_a_try_of_its_own', ['C08'],
+  (A, _RID, "        try:\n            request.request_id = next(_REQ_ID_ITER)\n        except Exception:\n            pass\n        else:\n"
+            "            try:\n                request.request_guid = int2hexguid(request.request_id)\n            except Exception:\n                pass\n"))
+B('pBf_request_guid_after_the_try', ['C08'], 'R08.j',
+  (A, _RID, "        rid = next(_REQ_ID_ITER)\n        try:\n            request.request_id = rid\n        except Exception:\n            pass\n"
+            "        request.request_guid = int2hexguid(rid)\n"))
+B('pBf_request_tagged_before_the_try', ['C08'], 'R08.j', (A, _RID, "        request.application = self\n" + _RID))
+B('pBf_request_id_handler_reraises', ['C08'], 'R08.j', (A, _RID, _RID.replace("            pass\n        else:", "            if self.debug:\n                raise\n        else:")))
+B('pBf_request_guid_setattr_in_finally', ['C08'], 'R08.j',
+  (A, _RID, "        rid = next(_REQ_ID_ITER)\n        try:\n            request.request_id = rid\n        except Exception:\n            pass\n        finally:\n"
+            "            setattr(request, 'request_guid', int2hexguid(rid))\n"))
+B('pBf_request_id_handler_narrowed', ['C08'], 'R08.j', (A, _RID, _RID.replace('except Exception:', 'except AttributeError:')))
+
+# R08.k: the keywords handed to the handler's *_type slots vs. the constructors of the classes a slot can hold
+_HE_INIT = ("        content_type = kwargs.pop('content_type', None)\n")
+_REJECT = "        if kwargs:\n            raise TypeError('unexpected keyword arguments: %r' % sorted(kwargs))\n"
+T('pBf_twin_error_keywords_popped_by_the_base', ['C08'],
+  (E, _HE_INIT, _HE_INIT + "        for unused in ('request', 'application', 'dispatch_state', 'hide_internal_frames'):\n            kwargs.pop(unused, None)\n"))
+T('pBf_twin_not_found_pops_its_context', ['C08'],
+  (E, "        self.dispatch_state = kwargs.get('dispatch_state', None)\n", "        self.dispatch_state = kwargs.pop('dispatch_state', None)\n"))
+B('pBf_error_base_rejects_leftover_keywords', ['C08'], 'R08.k', (E, _HE_INIT, _HE_INIT + _REJECT))
+B('pBf_error_base_without_keyword_mapping', ['C08'], 'R08.k',
+  (E, "    def __init__(self, *args, **kwargs):\n        self.dispatch_state = kwargs.get('dispatch_state', None)\n        super(NotFound, self).__init__(*args, **kwargs)\n",
+      "    def __init__(self, detail=None, dispatch_state=None, source_route=None):\n        self.dispatch_state = dispatch_state\n"
+      "        super(NotFound, self).__init__(detail, source_route=source_route)\n"))
+B('pBf_server_error_rejects_what_it_does_not_know', ['C08'], 'R08.k',
+  (E, "        self.exc_info = kwargs.pop('exc_info', None)\n        super(InternalServerError, self).__init__(detail, **kwargs)\n",
+      "        self.exc_info = kwargs.pop('exc_info', None)\n        source_route = kwargs.pop('source_route', None)\n        if kwargs:\n"
+      "            raise TypeError('unexpected keyword arguments: %r' % sorted(kwargs))\n        super(InternalServerError, self).__init__(detail, source_route=source_route)\n"))
+B('pBf_null_route_passes_a_new_keyword_to_405', ['C08'], 'R08.k',
+  (R, "            return MNAType(allowed_methods=_dispatch_state.allowed_methods)\n",
+      "            return MNAType(allowed_methods=_dispatch_state.allowed_methods, request=request)\n"),
+  (E, "    def __init__(self, allowed_methods=None, *args, **kwargs):\n", "    def __init__(self, allowed_methods=None, detail=None):\n        args, kwargs = (detail,), {}\n"))
+# (the same through a helper that hands its own ** parameter on: the keys are what its callers pass)
+_UTR1 = ("        eh = _application.error_handler\n        exc_info = eh.exc_info_type.from_current()\n"
+         "        return eh.server_error_type(repr(exc_info),\n                                    exc_info=exc_info,\n"
+         "                                    source_route=_route)\n")
+_UTR1_NEW = ("        return self._convert_current(_application, _route)\n\n    @staticmethod\n"
+             "    def _convert_current(_application, _route, **more):\n        eh = _application.error_handler\n"
+             "        exc_info = eh.exc_info_type.from_current()\n        make = eh.server_error_type\n"
+             "        return make(repr(exc_info), exc_info=exc_info, source_route=_route, **more)\n")
+_UTR2 = ("        eh = _application.error_handler\n        exc_info = eh.exc_info_type.from_current()\n        SEType = eh.server_error_type\n"
+         "        return SEType(repr(exc_info),\n                      exc_info=exc_info,\n                      source_route=_route,\n"
+         "                      request=kwargs.get('request'),\n                      hide_internal_frames=self.hide_internal_frames)\n")
+_UTR2_NEW = ("        return self._convert_current(_application, _route, request=kwargs.get('request'),\n"
+             "                                     hide_internal_frames=self.hide_internal_frames)\n")
+T('pBf_twin_server_error_through_helper_with_extras', ['C08'], (E, _UTR1, _UTR1_NEW), (E, _UTR2, _UTR2_NEW))
+B('pBf_helper_extras_meet_a_rejecting_base', ['C08'], 'R08.k', (E, _UTR1, _UTR1_NEW), (E, _UTR2, _UTR2_NEW), (E, _HE_INIT, _HE_INIT + _REJECT))
